@@ -40,14 +40,22 @@ macro_rules! drive {
                 }
                 println!("{}", json!({"prog":prog,"instances":counts[0],"recorded":passes[0].len()}));
             }
-            "repro" => {
+            "repro" | "repro4" => {
+                // repro: 2 replays of 64 decision bytes; repro4: 4 replays of 256 decision bytes
+                let (reps, nbytes) = if mode == "repro4" { (4, 320) } else { (2, 64) };
                 let count: usize = $args[3].parse().unwrap();
                 let mut rng = hv_common::Rng::new(hv_common::seed());
                 colored::control::set_override(false);
                 let mut nontrivial = 0;
                 for i in 0..count {
-                    let bytes: Vec<u8> = (0..64).map(|_| rng.below(256) as u8).collect();
-                    for rep in 1..=2 {
+                    #[allow(unused_mut)]
+                    let mut bytes: Vec<u8> = (0..nbytes).map(|_| rng.below(256) as u8).collect();
+                    if mode == "repro4" && i > 0 {
+                        // first decision = size of the first batch: 0xFF releases everything at
+                        // once, so that the inline order hooks see all keys in one tick
+                        bytes[0] = 0xFF;
+                    }
+                    for rep in 1..=reps {
                         let mut log_out: Vec<u8> = Vec::new();
                         let out: Mutex<Option<Value>> = Mutex::new(None);
                         let r = std::panic::catch_unwind(std::panic::AssertUnwindSafe(|| {
@@ -69,7 +77,7 @@ macro_rules! drive {
                             "decisions":log,"outputs":json!(out.into_inner().unwrap()).to_string(),"verdict":verdict}));
                     }
                 }
-                println!("{}", json!({"prog":prog,"inputs":count,"runs":2*count,"nontrivial":nontrivial}));
+                println!("{}", json!({"prog":prog,"inputs":count,"runs":reps*count,"nontrivial":nontrivial}));
             }
             other => panic!("unknown mode {other}"),
         }
@@ -149,6 +157,29 @@ fn run_prog(args: &[String], t: &mut Trace) {
                 sa.send_many_unordered([1, 2]);
                 sb.send_many([9]);
                 let all: Vec<(Vec<i32>, i32)> = out.collect().await;
+                json!(all)
+            });
+        }
+        "p8" => {
+            let (send, out) = hv_sim::flows::p8_keyed_inline_order(&node);
+            drive!(flow, args, t, async || {
+                // 5 keys with 2..5 values each, all sent before the first tick
+                let mut items = vec![];
+                for (k, n) in [(1, 2), (2, 3), (3, 4), (4, 5), (5, 2), (6, 3)] {
+                    for v in 0..n {
+                        items.push((k, 10 * k + v));
+                    }
+                }
+                send.send_many(items);
+                let all: Vec<(i32, Vec<i32>)> = out.collect_sorted::<Vec<_>>().await;
+                json!(all)
+            });
+        }
+        "p9" => {
+            let (send, out) = hv_sim::flows::p9_inline_order(&node);
+            drive!(flow, args, t, async || {
+                send.send_many([1, 2, 3, 4, 5, 6]);
+                let all: Vec<Vec<i32>> = out.collect().await;
                 json!(all)
             });
         }
